@@ -154,8 +154,17 @@ func (g *Gen) instrAlloc(f *Frame, i *ssa.Alloc) {
 		return
 	}
 	loc := g.cellLoc(r, el)
+	prevVer := g.get(f.st, loc.comp)
 	g.write(f.st, loc, g.d.zero(el))
 	g.setVal(f, i, r)
+	if g.cellLog == nil {
+		g.cellLog = map[string]cellStore{}
+	}
+	if g.allocCanon == nil {
+		g.allocCanon = map[string]string{}
+	}
+	g.allocCanon[r], g.allocCanon[f.vals[i].S] = r, r
+	g.cellLog[f.st.comp[loc.comp]] = cellStore{addr: r, prev: prevVer}
 	if isPrivateAlloc(i) {
 		f.private = append(f.private, privCell{i, loc.comp, f.vals[i].S})
 	}
@@ -246,6 +255,11 @@ func (g *Gen) instrUnOp(f *Frame, i *ssa.UnOp) {
 				g.closures = map[string]closureInfo{}
 			}
 			g.closures[f.vals[i].S] = ci
+		} else if ci, ok := g.cellFnThroughStores(g.get(f.st, l.comp), x.S); ok {
+			if g.closures == nil {
+				g.closures = map[string]closureInfo{}
+			}
+			g.closures[f.vals[i].S] = ci
 		}
 	case token.NOT:
 		g.setVal(f, i, not(g.val(f, i.X).S))
@@ -291,13 +305,51 @@ func (g *Gen) instrStore(f *Frame, i *ssa.Store) {
 		return
 	}
 	l := g.cellLoc(x.S, el)
+	prevVer := g.get(f.st, l.comp)
 	g.write(f.st, l, v.S)
-	if ci, ok := g.resolveFuncValue(v); ok {
+	ci, ok := g.resolveFuncValue(v)
+	if ok {
 		if g.cellFn == nil {
 			g.cellFn = map[string]closureInfo{}
 		}
 		g.cellFn[f.st.comp[l.comp]+"|"+x.S] = ci
 	}
+	if g.cellLog == nil {
+		g.cellLog = map[string]cellStore{}
+	}
+	g.cellLog[f.st.comp[l.comp]] = cellStore{addr: x.S, prev: prevVer, ci: ci, ok: ok}
+}
+
+// cellStore: the store that produced one version of a cell component.
+type cellStore struct {
+	addr, prev string
+	ci         closureInfo
+	ok         bool
+}
+
+// cellFnThroughStores: the function value last stored at cell addr, looking back through stores to OTHER cells. Two
+// cells are known to be different when both addresses are results of different allocations made in this run (each is
+// the allocation counter plus one at a different point); anything else ends the search.
+func (g *Gen) cellFnThroughStores(ver, addr string) (closureInfo, bool) {
+	a, aAlloc := g.allocCanon[addr]
+	for k := 0; k < 64; k++ {
+		e, found := g.cellLog[ver]
+		if !found {
+			return closureInfo{}, false
+		}
+		if e.addr == addr {
+			return e.ci, e.ok
+		}
+		b, bAlloc := g.allocCanon[e.addr]
+		if !aAlloc || !bAlloc {
+			return closureInfo{}, false
+		}
+		if a == b {
+			return e.ci, e.ok
+		}
+		ver = e.prev
+	}
+	return closureInfo{}, false
 }
 
 func goDiv(a, b string) string {
